@@ -286,7 +286,7 @@ def run(tier, seed):
         ask(f"c08.unit\t{u.wire}", ("unit", u))
 
     # ---- binary forms over all ordered pairs -----------------------------------------------------
-    special = [(1.0, 50.0)]  # the witness of C08_add_counterexample rides along on every pair
+    special = [(1.0, 50.0)]  # the regression witness (1 delta_degC + 50 degF must be 51.8 degF) rides along on every pair
     n_rand = 1 if tier == "quick" else 3
     npairs = 0
     for u0 in units:
@@ -537,17 +537,6 @@ def run(tier, seed):
             except Exception:  # noqa: BLE001
                 pass
 
-    # ---- the candidate repairs (design.d/C08.md): the repaired model, executed at Float, meets the oracle
-    for u0 in units:
-        for u1 in units:
-            if u0.kind == "diff" and u1.kind == "point":
-                ask(f"c08.fixed.add\t{u0.wire}\t{u1.wire}\t{f2b(1.0)}\t{f2b(50.0)}", ("fixed.add", u0, u1))
-    for u in units:
-        ask(f"c08.fixed.diff\t{u.wire}\t{f2b(1.0)}\t{f2b(10.0)}", ("fixed.diff", u))
-        if u.kind == "point":
-            for mop, marg in (("sqrt", ""), ("cbrt", ""), ("reciprocal", ""), ("power", "3"), ("mulreduce", "3"), ("square", "")):
-                ask(f"c08.fixed.unary\t{mop}\t{marg}\t{u.wire}", ("fixed.unary", u, mop))
-
     # ---- correspondence: ask the model ---------------------------------------------------------
     try:
         replies = core.Model("drv_c08").ask([m[0] for m in model])
@@ -574,7 +563,7 @@ def run(tier, seed):
             "prefixes m,k,da,µ in the quick tier, all 22 in the thorough tier) x {add, subtract} x {operator, ufunc, in-place, out=} x {array, quantity} "
             "+ 9 comparison forms + {multiply, divide} x {operator, ufunc, in-place, floor} + 4 conversion routes; every unit x 19 power/root/product forms, "
             "4 reductions, diff/ediff1d/ptp, x/÷ with a number, a dimensionless quantity and metres on either side; alternative spellings; "
-            "readings: the counterexample witness (1, 50) plus seeded values; distinct = distinct (form, unit0, unit1, operand kind); "
+            "readings: the regression witness (1, 50) plus seeded values; distinct = distinct (form, unit0, unit1, operand kind); "
             "non-trivial = a temperature-specific branch is involved: binary cases whose operands are not the same offset-free unit, "
             "power forms on offset units, every reduction / diff / spelling case, conversions between different units")
     return chk.finish(rule)
@@ -612,24 +601,6 @@ def compare(chk, line, exp, rep):
               and rep[3] == repr(u.unit) and rep[4] == str(u.unit) and (rep[5] == "1") == sp)
         if not ok:
             chk.disagree("c08.unit", f"{u.name}: model {rep} vs unyt ({u.unit.base_value}, {u.unit.base_offset}, {u.unit!r}, {u.unit!s}, split={sp})")
-    elif kind == "fixed.add":
-        _, u0, u1 = exp
-        if rep[0] == "ok":
-            msg = t_check_additive("add", u0.name, [1.0], u1.name, [50.0], rep[1].replace(":", ""), [core.b2f(rep[2])])
-            if msg:
-                chk.disagree("c08.fixed.add", "the repaired model is not affine: " + msg)
-    elif kind == "fixed.diff":
-        _, u = exp
-        if rep[0] == "ok":
-            msg = t_check_additive("sub", u.name, [10.0], u.name, [1.0], rep[1].replace(":", ""), [core.b2f(rep[2])])
-            if msg:
-                chk.disagree("c08.fixed.diff", "the repaired model is not affine: " + msg)
-        elif u.kind == "diff":
-            chk.disagree("c08.fixed.diff", f"the repaired model refuses {u.name}: {rep}")
-    elif kind == "fixed.unary":
-        _, u, mop = exp
-        if rep[0] != "err":
-            chk.disagree("c08.fixed.unary", f"the repaired model does not refuse {mop} of {u.name}: {rep}")
     elif kind == "additive":
         _, op, u0, u1, i, x0, x1, outcomes = exp
         for (okind, fname), oc in outcomes.items():
